@@ -170,6 +170,7 @@ func (x *Exec) pass() {
 		}
 		x.assume(st, sx(append([]string{"distinct"}, names...)...))
 	}
+	x.holdAtEntry(st)
 	// receiver is non-nil for pointer-receiver methods under contract (stated assumption: callers
 	// reach the method through a non-nil receiver; a nil receiver panics before any property matters)
 	x.entry.live = st.live
